@@ -65,6 +65,12 @@ func (s *objectStore) Save(cluster string, condition *proxyv1alpha1.RateLimitCon
 
 	klog.V(5).Infof("Save upstream %s condition %s to store %v", cluster, condition.Name, s.shard)
 	if s.syncPeriod == 0 {
+		// write-through: serialise with doSyncLocked (Flush / Stop). A flush that listed the
+		// previous version of this condition before this Save must not write that older
+		// version to the API after the Save has been acknowledged.
+		s.Lock()
+		defer s.Unlock()
+
 		var err error
 		condition, err = s.createOrUpdate(condition)
 		if err != nil {
